@@ -37,6 +37,10 @@ CHECKS = {
          "Every case of a lattice of input/output multisets per pool x dust/split policies x heights x anchors x ephemeral balances is run through fee_required and both change strategies and checked for conservation, ZIP 317 fee of the final padded shape, dust clause, NU6.3 Orchard turnstile and truthful InsufficientFunds.",
          "Values outside the alphabet are covered through shared comparisons; padding rule re-implemented from the documentation.",
          "DESIGN.md section 4 C07"),
+ "C08": ("model_checking", "explicit-state BFS over the real SQLite wallet (locks, pending transactions, advances, mining, rewinds) with a request lattice evaluated in every state against a ground-truth spendability model",
+         "From three start states the real wallet is explored under Lock/Unlock/ClearLocks/StorePending/Advance/Mine/Rewind/FillGap and lock-taking proposals; in every state every request of a lattice (amounts x recipients x confirmation policies x locked-input policies x change strategies x four proposal entry points) is proposed and each proposal is checked for ownership, unspentness, pending spends, confirmations, locks, single use, a Merkle path at the anchor that yields the true chain root, exact per-step balance; requests above the reference upper bound must fail.",
+         "Pending transactions spend Sapling notes only (mock provers); depth <=3 quick / <=4 thorough with a lattice that shrinks with depth; wall caps reported.",
+         "DESIGN.md section 4 C08"),
  "C09": ("exploration", "bounded exhaustive enumeration of operator x operand-lattice tuples on the real code, exact i128 oracle",
          "Every constructor, parser, operator and 8-byte decoder of Zatoshis/ZatBalance is executed on every tuple of a boundary lattice that has a point on each side of every comparison and 64-bit wrap in value.rs, and on every single-byte rewrite of every lattice encoding; each result is compared with exact i128 arithmetic.",
          "Trusted: rustc integer semantics; engines are built with overflow checks on so a wrap is a caught panic.",
@@ -87,9 +91,7 @@ CHECKS = {
          "DESIGN.md section 4 C20"),
 }
 
-NOT_APPLICABLE = {
- "C08": "check not built yet in this round (planned in DESIGN.md section 4 C08); nothing is claimed for it",
-}
+NOT_APPLICABLE = {}
 
 NOT_BUILT_REASON = "check not built yet in this round (planned in DESIGN.md); nothing is claimed for it"
 
